@@ -85,21 +85,29 @@ def do_step(step, root):
         sr.close()
         return {"out": os.path.relpath(out, root)}
     if op == "inplace_cycle":
+        # ONE Reader object carried through decompress-in-place -> open -> read -> compress-in-place ->
+        # open -> read, `cycles` times
         sr = spikeglx.Reader(cbin)
         kw = {"overwrite": True} if step.get("overwrite") else {}
         shapes = [tuple(int(x) for x in sr.shape)]
-        sr.decompress_file(keep_original=False, **kw)
-        sr.open()
-        shapes.append(tuple(int(x) for x in sr.shape))
-        a = np.array(sr[: min(50, sr.ns), :])
-        sr.close()
-        sr.compress_file(keep_original=False, **ckw)
-        shapes.append(tuple(int(x) for x in sr.shape))      # the carried object, not re-opened yet
-        sr.open()
-        shapes.append(tuple(int(x) for x in sr.shape))
-        b = np.array(sr[: min(50, sr.ns), :])
-        sr.close()
-        return {"same": bool(np.array_equal(a, b)), "is_mtscomp": bool(sr.is_mtscomp), "shapes": shapes}
+        same = True
+        first = None
+        for _ in range(int(step.get("cycles", 1))):
+            sr.decompress_file(keep_original=False, **kw)
+            sr.open()        # reading through the carried object without re-opening is not demanded
+            shapes.append(tuple(int(x) for x in sr.shape))
+            a = np.array(sr[: min(50, sr.ns), :])
+            sr.close()
+            sr.compress_file(keep_original=False, **ckw)
+            shapes.append(tuple(int(x) for x in sr.shape))      # the carried object, not re-opened yet
+            sr.open()
+            shapes.append(tuple(int(x) for x in sr.shape))
+            b = np.array(sr[: min(50, sr.ns), :])
+            sr.close()
+            first = a if first is None else first
+            same = same and bool(np.array_equal(a, b)) and bool(np.array_equal(a, first))
+            kw = {}
+        return {"same": same, "is_mtscomp": bool(sr.is_mtscomp), "shapes": shapes}
     raise ValueError(op)
 
 
@@ -180,6 +188,8 @@ def _next_step(r, model, fs, ns, nfaults):
         st["keep_original"] = r.random() < 0.5
     if op in ("decompress", "inplace_cycle"):
         st["overwrite"] = model["bin"] != "absent"
+    if op == "inplace_cycle":
+        st["cycles"] = r.choice([1, 1, 2])
     if op == "decompress" and model["bin"] != "absent" and r.random() < 0.5:
         # the naive retry: same call again although a (possibly partial) .bin is in the way; the
         # documented behaviour is a refusal (ValueError from the dependency) that changes nothing
